@@ -22,3 +22,4 @@ PROP = {'engine': 'stack',
                'outside',
  'technique': 'property-based testing (rapid): generated histories with injected refused calls (metamorphic: outcomes equal the history without '
               'them), one hook-ordered schedule'}
+PROP['rule'] += ' Round-4 addition: unknown ids one edit away from the in-flight id (upper case, one character more, one less, last character flipped; mut:<kind>:nth:<k>) are submitted while the invocation is with the runtime and after its answer: refused with a client error, and the real answer is still accepted.'
